@@ -186,3 +186,21 @@ CHECKS['C08'] = dict(
     note='Weak claim by design: header-first, consistent cell counts, terminated spines, error-free re-import and equivalent governing signatures of '
          'excerpts are NOT decided by this family (they depend on the whole tree history and on is_signature_cancelled).',
 )
+
+CHECKS['C13'] = dict(
+    category='other',
+    technique='option-field partition: guard truth tables of append_row over canonical atoms (unknown atom = dependence violation), per-method read/write sets of option fields, placement of the null-row test; field-by-field constant evaluation of ExportOptions() vs ExportOptions.default(); None-skip and option-map checks',
+    text='Decides the structural clauses of independence for every cell and option set: each gate and the tokenizer choice depend only on their own '
+         'option fields, no option is assigned on the export path, null rows are suppressed after all gates without reading options; and explicit '
+         'default == omitted: None-defaults in dump/dumps, None skipped, ExportOptions() and default() agree on all eight fields.',
+    note='Weak claim by design: commutation of the three text transformations on whole documents is NOT decided by this family.',
+)
+
+CHECKS['C19'] = dict(
+    category='other',
+    technique='symbolic execution of one iteration of the fragment loop of Generic.concat with loop-carried variables as symbols; origin and affine checks of the (low, high) bookkeeping',
+    text='Decides the bookkeeping clauses for every fragment list: one unconditional path per fragment, prefix text = previous + separator + fragment, '
+         'one pair per fragment with high = measure count of the prefix import, next low = high + 1, first low = 0, the returned document is the '
+         'import of the full text, separator=None is a newline, the public wrapper forwards unchanged.',
+    note='Weak claim by design: that exporting pair i reproduces fragment i is NOT decided (needs C07 on every prefix document).',
+)
